@@ -5,6 +5,15 @@ NOTES = ("Technique: machine-checked proof in Coq 8.16 over hand-written executa
          "when either breaks.")
 NOT_APPLICABLE = {}
 CHECKS = {
+ "C04": {
+  "text": "Theorems over the block-sequencing automata of Blocking.v: for all block-size pairs, all chunkings and ALL envelope-search "
+          "oracles the encoder run terminates, granules strictly increase, the last packet carries granule N + eos, window flags chain, "
+          "and the decoder returns exactly N samples. Every step of lib/block.c is replayed against the extracted automata each run "
+          "(real encodes + an automaton-only sweep over every N in dense ranges); vorbisfile's total/first position are checked directly.",
+  "note": "Trusted: Coq kernel, extraction, harness/c04.c (linker --wrap of _ve_envelope_search), libogg. The psychoacoustic decisions are "
+          "oracle inputs (theorems quantify over all of them). 64-bit wrap of granule positions not modelled. Print Assumptions: closed.",
+  "technique": "Coq proof (invariant by induction over operations, unbounded N) + step-by-step correspondence of extracted automata vs lib/block.c",
+ },
  "C16": {
   "text": "Theorems for all comment lists/tags/indices (round trip, ASCII-only case folding, n-th match, count = successes, "
           "no read past the terminator) about Comment.v; the model is run against lib/info.c on generated and boundary-mutated inputs each run.",
